@@ -26,13 +26,24 @@ Trace == ndJsonDeserialize(TraceFile)
 
 IsDispatch(e) == e.tab \in {"dacc", "dref", "dauth"}
 TabOf(e) == IF IsDispatch(e) THEN SubSeq(e.tab, 2, Len(e.tab)) ELSE e.tab
-NormPre(e) == LET p == [e.pre EXCEPT !.gas = IF IsDispatch(e) THEN SubU(e.pre.gas, U(1)) ELSE e.pre.gas] IN p
+\* Storage entries that sit in the pool of raw state key-values (ctx.kv: <<service, storage key, value>>, attributed by the
+\* driver that installed them) belong to the service's storage: both snapshots are judged on the merged view, so moving an
+\* entry between pool and dictionary is invisible and losing it is not.
+RECURSIVE MergeKv(_, _, _)
+MergeKv(st, id, es) == IF es = <<>> THEN st
+                       ELSE LET e == Head(es) IN
+                            MergeKv(IF e[1] = id /\ ~(\E q \in 1..Len(st) : st[q][1] = e[2]) THEN InsertBy(st, <<e[2], e[3]>>, StLess) ELSE st, id, Tail(es))
+NormCtx(c) == IF "kv" \notin DOMAIN c \/ c.kv = <<>> THEN c
+              ELSE [c EXCEPT !.svcs = [q \in 1..Len(c.svcs) |-> [c.svcs[q] EXCEPT !.st = MergeKv(@, c.svcs[q].id, c.kv)]],
+                             !.kv = SelectSeq(c.kv, LAMBDA e : e[1] \notin Ids(c.svcs))]
+NormPre(e) == [e.pre EXCEPT !.gas = IF IsDispatch(e) THEN SubU(e.pre.gas, U(1)) ELSE e.pre.gas, !.ctx = NormCtx(e.pre.ctx)]
 NormPost(e) ==
-  IF ~IsDispatch(e) THEN e.post
+  LET po == [e.post EXCEPT !.ctx = NormCtx(e.post.ctx)] IN
+  IF ~IsDispatch(e) THEN po
   ELSE LET g1 == SubU(e.pre.gas, U(1)) IN
-       IF e.post.exit = "panic" /\ e.post.gas = SubU(g1, U(11)) THEN [e.post EXCEPT !.exit = "cont", !.gas = SubU(g1, U(10))]
-       ELSE IF e.post.exit = "oog" /\ IsZero(e.post.gas) /\ g1 = U(10) THEN [e.post EXCEPT !.exit = "cont"]
-       ELSE e.post
+       IF po.exit = "panic" /\ po.gas = SubU(g1, U(11)) THEN [po EXCEPT !.exit = "cont", !.gas = SubU(g1, U(10))]
+       ELSE IF po.exit = "oog" /\ IsZero(po.gas) /\ g1 = U(10) THEN [po EXCEPT !.exit = "cont"]
+       ELSE po
 
 \* Deviation (open finding, enabled only when listed in KnownDeviations): the inner-machine calls machine, peek,
 \* poke and invoke store OOB in register 7 before they panic; nothing else differs from a clean panic.
